@@ -293,6 +293,19 @@ def twin_swap(sources):
     return _unparse_all(sources, lambda path, tree: _SwapAssign().visit(tree))
 
 
+class _NegTwin(ast.NodeTransformer):
+    def visit_Compare(self, node):
+        self.generic_visit(node)
+        if len(node.ops) == 1 and isinstance(node.ops[0], (ast.IsNot, ast.NotIn)):
+            pos = ast.Is() if isinstance(node.ops[0], ast.IsNot) else ast.In()
+            return ast.UnaryOp(op=ast.Not(), operand=ast.Compare(left=node.left, ops=[pos], comparators=node.comparators))
+        return node
+
+
+def twin_negforms(sources):
+    return _unparse_all(sources, lambda path, tree: _NegTwin().visit(tree))
+
+
 TWINS = {
     'reprint': twin_unparse,
     'rename-locals': twin_rename,
@@ -301,6 +314,7 @@ TWINS = {
     'noop-stmt': twin_noop,
     'return-temp': twin_ret_temp,
     'swap-assign': twin_swap,
+    'neg-forms': twin_negforms,
 }
 
 
